@@ -70,6 +70,10 @@ func derivedFromRequest(v ssa.Value, depth int) bool {
 			}
 			return derivedFromRequest(x.X, depth+1)
 		}
+	case *ssa.Extract:
+		if x.Index == 0 {
+			return derivedFromRequest(x.Tuple, depth+1)
+		}
 	case *ssa.Phi:
 		for _, e := range x.Edges {
 			if !derivedFromRequest(e, depth+1) {
@@ -80,6 +84,12 @@ func derivedFromRequest(v ssa.Value, depth int) bool {
 	case *ssa.Call:
 		if isCallTo(&x.Call, "(*net/http.Request).Context") || isCallTo(&x.Call, "(*net/http.Request).WithContext") {
 			return derivedFromRequest(x.Call.Args[0], depth+1)
+		}
+		// a child context of a context of this request
+		for _, n := range []string{"context.WithValue", "context.WithCancel", "context.WithTimeout", "context.WithDeadline", "context.WithoutCancel"} {
+			if isCallTo(&x.Call, n) {
+				return derivedFromRequest(x.Call.Args[0], depth+1)
+			}
 		}
 		if sc := staticCallee(&x.Call); sc != nil && InModule(sc) && len(x.Call.Args) > 0 && typeIs(x.Type(), "context", "Context") {
 			// helper returning a context derived from its context argument (CtxWithID, Logger.WithContext)
@@ -113,10 +123,7 @@ func ruleHlogIsolation(r *Run, p *Prog) {
 		return
 	}
 	nUpd := 0
-	for _, f := range p.ModFns {
-		if pkgRel(f) != "hlog" {
-			continue
-		}
+	for _, f := range p.RootViews([]string{"hlog"}, "", nil) {
 		eachInstr(f, func(b *ssa.BasicBlock, i int, in ssa.Instruction) {
 			switch x := in.(type) {
 			case *ssa.Call:
@@ -223,7 +230,7 @@ func freeVarOwner(f *ssa.Function, fv *ssa.FreeVar) *ssa.Function {
 		parent := cur.Parent()
 		var binding ssa.Value
 		eachInstr(parent, func(b *ssa.BasicBlock, i int, in ssa.Instruction) {
-			if mc, ok := in.(*ssa.MakeClosure); ok && mc.Fn == ssa.Value(cur) && idx < len(mc.Bindings) {
+			if mc, ok := in.(*ssa.MakeClosure); ok && (mc.Fn == ssa.Value(cur) || viewInfo[cur] != nil && mc.Fn == ssa.Value(viewInfo[cur].root)) && idx < len(mc.Bindings) {
 				binding = mc.Bindings[idx]
 			}
 		})
@@ -260,6 +267,11 @@ func ruleProxy(r *Run, p *Prog) {
 		return "", nil
 	}
 	// who stores code / wroteHeader / bytes
+	whSet := p.exclusiveHelpers(wh)
+	cntSet := p.exclusiveHelpers(wr)
+	for g := range p.exclusiveHelpers(rf) {
+		cntSet[g] = true
+	}
 	for _, f := range p.ModFns {
 		if pkgRel(f) != mutilRel {
 			continue
@@ -268,14 +280,16 @@ func ruleProxy(r *Run, p *Prog) {
 			name, _ := fieldOf(in)
 			switch name {
 			case "code", "wroteHeader":
-				r.Ob("PROXY", FnName(f)+"/stores-"+name, p.Pos(in.Pos()), f == wh, true, tern(f == wh, name+" stored by WriteHeader", name+" is stored outside WriteHeader: the reported status is no longer the first one sent"))
+				r.Ob("PROXY", FnName(f)+"/stores-"+name, p.Pos(in.Pos()), whSet[f], true, tern(whSet[f], name+" stored by WriteHeader", name+" is stored outside WriteHeader: the reported status is no longer the first one sent"))
 			case "bytes":
-				ok := f == wr || f == rf
+				ok := cntSet[f]
 				r.Ob("PROXY", FnName(f)+"/stores-bytes", p.Pos(in.Pos()), ok, true, tern(ok, "byte count updated by Write/ReadFrom", "the byte count is modified in "+FnName(f)))
 			}
 		})
 	}
 	// WriteHeader path table
+	whOrig := wh
+	wh = p.View(wh, "", nil)
 	paths, _ := enumPaths(wh, 1, 200)
 	for i, pa := range paths {
 		var ev []string
@@ -315,7 +329,10 @@ func ruleProxy(r *Run, p *Prog) {
 		r.Ob("PROXY", FnName(wh)+"/path#"+itoa(i), p.Pos(wh.Pos()), ok, true, tern(ok, tern(first, "first WriteHeader: records the code and the flag, then forwards", "later WriteHeader calls are ignored"), "WriteHeader "+tern(first, "(first call)", "(header already written)")+" does "+seq+": the status recorded is not exactly the first code sent"))
 	}
 	// Write: WriteHeader(200) before the underlying Write; bytes += n of that Write on every path
+	wh = whOrig
+	keepHdr := func(g *ssa.Function) bool { return g == wh || g == mw }
 	checkCount := func(f *ssa.Function, callName string, pre *ssa.Function, preArg int64, onlyWhen func(pa Path) bool) {
+		f = p.View(f, "keep-header", keepHdr)
 		paths, complete := enumPaths(f, 1, 2000)
 		if !complete {
 			r.Fail("PROXY", FnName(f)+"/paths", p.Pos(f.Pos()), "cannot enumerate")
